@@ -17,6 +17,9 @@
 
 #include "vh_scen.h"
 
+#if defined(__SANITIZE_ADDRESS__)
+extern int __lsan_do_recoverable_leak_check(void);
+#endif
 static int fire_fd = -1; static long long fire_k; static int fire_sticky;
 static void on_fire(void) {
 	char b[600]; int o, i;
@@ -28,7 +31,7 @@ static void on_fire(void) {
 
 /* child body: returns through _exit */
 static void child(void (*fn)(void), long long k, int sticky, int outfd) {
-	FILE *out = fdopen(outfd, "w"); int nleak; long long n;
+	FILE *out = fdopen(outfd, "w"); int nleak, lsan = 0; long long n;
 	snprintf(uniq, sizeof uniq, "vfC18-%d", (int)getpid());
 	alarm(60);
 	fire_fd = outfd; fire_k = k; fire_sticky = sticky; va_on_fire = on_fire;
@@ -37,7 +40,12 @@ static void child(void (*fn)(void), long long k, int sticky, int outfd) {
 	n = va_count;
 	va_disarm();
 	p_libsys_shutdown();
-	fprintf(out, "{\"ev\":\"case\",\"pid\":%d,\"scenario\":\"%s\",\"k\":%lld,\"sticky\":%d,\"allocs\":%lld,\"fired\":%d,\"bad_free\":%lld,\"damage\":%s%s%s,\"leaks\":", (int)getpid(), scname, k, sticky, n, va_fired, va_bad_free,
+#if defined(__SANITIZE_ADDRESS__)
+	/* memory obtained from libc on the library's behalf (getaddrinfo results, ...) never passes through the allocator table: ask the
+	 * leak checker of the sanitizer run-time about everything unreachable at this point (needs ASAN_OPTIONS=detect_leaks=1) */
+	lsan = getenv("VH_LSAN") ? __lsan_do_recoverable_leak_check() : 0;
+#endif
+	fprintf(out, "{\"ev\":\"case\",\"pid\":%d,\"lsan\":%d,\"scenario\":\"%s\",\"k\":%lld,\"sticky\":%d,\"allocs\":%lld,\"fired\":%d,\"bad_free\":%lld,\"damage\":%s%s%s,\"leaks\":", (int)getpid(), lsan, scname, k, sticky, n, va_fired, va_bad_free,
 	        damage ? "\"" : "", damage ? damage_what : "null", damage ? "\"" : "");
 	nleak = va_report_new(out, 0);
 	fprintf(out, ",\"nleaks\":%d}\n", nleak);
@@ -63,6 +71,7 @@ static long long run_case(void (*fn)(void), long long k, int sticky) {
 	waitpid(pid, &status, 0);
 	fputs(buf, stdout);
 	if ((p = strstr(buf, "\"allocs\":"))) allocs = atoll(p + 9);
+	if (strstr(buf, "\"lsan\":1")) { printf("{\"ev\":\"lsan\",\"pid\":%d,\"scenario\":\"%s\",\"k\":%lld,\"sticky\":%d,\"stderr\":", (int)pid, scname, k, sticky); vh_json_str(stdout, ebuf); printf("}\n"); }
 	if (WIFSIGNALED(status) || WEXITSTATUS(status) != 0) {
 		printf("{\"ev\":\"crash\",\"pid\":%d,\"scenario\":\"%s\",\"k\":%lld,\"sticky\":%d,\"signal\":%d,\"exit\":%d,\"stderr\":", (int)pid, scname, k, sticky,
 		       WIFSIGNALED(status) ? WTERMSIG(status) : 0, WIFSIGNALED(status) ? 0 : WEXITSTATUS(status));
@@ -93,5 +102,5 @@ int main(int argc, char **argv) {
 	for (i = 1; i <= 2; i++) if (modes & i) for (k = 1; k <= N + 1; k++) { run_case(fn, k, i == 2); cases++; }
 	printf("{\"ev\":\"stats\",\"scenario\":\"%s\",\"N\":%lld,\"cases\":%lld,\"wall\":%.2f}\n", scname, N, cases, vh_now() - t0);
 	cleanup_files();
-	return 0;
+	fflush(NULL); _exit(0);       /* no end-of-process leak report for the enumerating parent itself */
 }
